@@ -14,34 +14,34 @@ open Matrix Finset BobEM BobEM.FA
 variable {C D rU rV : ℕ}
 
 /-- posterior precision of a block with loading `L` and counts `n` -/
-noncomputable def precision {r : ℕ} (M : Model C D rU rV ℝ) (L : Fin C → Fin D → Fin r → ℝ) (n : Fin C → ℝ) :
+noncomputable def faPrecision {r : ℕ} (M : Model C D rU rV ℝ) (L : Fin C → Fin D → Fin r → ℝ) (n : Fin C → ℝ) :
     Matrix (Fin r) (Fin r) ℝ := Matrix.of fun a b => eye r a b + prodN M L n a b
 
-theorem precision_posDef {r : ℕ} (M : Model C D rU rV ℝ) (L : Fin C → Fin D → Fin r → ℝ) (n : Fin C → ℝ)
-    (hn : ∀ c, 0 ≤ n c) (hs : ∀ c d, 0 < M.s c d) : (precision M L n).PosDef := by
+theorem faPrecision_posDef {r : ℕ} (M : Model C D rU rV ℝ) (L : Fin C → Fin D → Fin r → ℝ) (n : Fin C → ℝ)
+    (hn : ∀ c, 0 ≤ n c) (hs : ∀ c d, 0 < M.s c d) : (faPrecision M L n).PosDef := by
   have := Pmat_posDef (ι := Unit) (fun _ k => n k.1) (fun k : Fin C × Fin D => M.s k.1 k.2)
     (fun _ k => hn k.1) (fun k => hs k.1 k.2) (rowsOf L) ()
   rwa [← idPlus_eq_Pmat] at this
 
-theorem precision_symm {r : ℕ} (M : Model C D rU rV ℝ) (L : Fin C → Fin D → Fin r → ℝ) (n : Fin C → ℝ)
-    (hn : ∀ c, 0 ≤ n c) (hs : ∀ c d, 0 < M.s c d) : (precision M L n)ᵀ = precision M L n := by
-  have := (precision_posDef M L n hn hs).isHermitian
+theorem faPrecision_symm {r : ℕ} (M : Model C D rU rV ℝ) (L : Fin C → Fin D → Fin r → ℝ) (n : Fin C → ℝ)
+    (hn : ∀ c, 0 ≤ n c) (hs : ∀ c d, 0 < M.s c d) : (faPrecision M L n)ᵀ = faPrecision M L n := by
+  have := (faPrecision_posDef M L n hn hs).isHermitian
   rwa [Matrix.IsHermitian, Matrix.conjTranspose_eq_transpose_of_trivial] at this
 
 /-- the speaker-factor update solves `(I + Vᵀ Σ⁻¹ N V) y = Vᵀ Σ⁻¹ (F − N (m + D z) − Σ_h N_h U x_h)` -/
 theorem C07_y_solves_normal_equations (M : Model C D rU rV ℝ) (sts : List (St C D ℝ)) (xs : List (Fin rU → ℝ))
     (z : Fin C → Fin D → ℝ) (hn : ∀ c, 0 ≤ nAcc sts c) (hs : ∀ c d, 0 < M.s c d) :
-    precision M M.V (nAcc sts) *ᵥ updateY M sts xs z
+    faPrecision M M.V (nAcc sts) *ᵥ updateY M sts xs z
       = projT M M.V (fun c d => fAcc sts c d - nAcc sts c * (M.m c d + 1 * (M.Dd c d * z c d)) - uxTerm M sts xs c d) := by
-  have hP := precision_posDef M M.V (nAcc sts) hn hs
-  have hsym := precision_symm M M.V (nAcc sts) hn hs
-  have hy : updateY M sts xs z = (precision M M.V (nAcc sts))⁻¹ *ᵥ
+  have hP := faPrecision_posDef M M.V (nAcc sts) hn hs
+  have hsym := faPrecision_symm M M.V (nAcc sts) hn hs
+  have hy : updateY M sts xs z = (faPrecision M M.V (nAcc sts))⁻¹ *ᵥ
       projT M M.V (fun c d => fAcc sts c d - nAcc sts c * (M.m c d + 1 * (M.Dd c d * z c d)) - uxTerm M sts xs c d) := by
-    have hinv : ((precision M M.V (nAcc sts))⁻¹)ᵀ = (precision M M.V (nAcc sts))⁻¹ := by
+    have hinv : ((faPrecision M M.V (nAcc sts))⁻¹)ᵀ = (faPrecision M M.V (nAcc sts))⁻¹ := by
       rw [Matrix.transpose_nonsing_inv, hsym]
     funext a
     simp only [updateY, updateYG, idPlusInv, LinAlg.inv, BobEM.FA.vecMul, sumFin_eq, Matrix.mulVec, dotProduct]
-    have : ∀ b, ((precision M M.V (nAcc sts))⁻¹) b a = ((precision M M.V (nAcc sts))⁻¹) a b := by
+    have : ∀ b, ((faPrecision M M.V (nAcc sts))⁻¹) b a = ((faPrecision M M.V (nAcc sts))⁻¹) a b := by
       intro b; have := congrFun (congrFun hinv a) b; simpa [Matrix.transpose_apply] using this
     refine Finset.sum_congr rfl fun b _ => ?_
     rw [mul_comm]; congr 1; exact this b
@@ -50,13 +50,13 @@ theorem C07_y_solves_normal_equations (M : Model C D rU rV ℝ) (sts : List (St 
 /-- each channel-factor update solves `(I + Uᵀ Σ⁻¹ N_h U) x = Uᵀ Σ⁻¹ (F_h − N_h (m + D z + V y))` -/
 theorem C07_x_solves_normal_equations (M : Model C D rU rV ℝ) (st : St C D ℝ) (y : Fin rV → ℝ)
     (z : Fin C → Fin D → ℝ) (hn : ∀ c, 0 ≤ st.n c) (hs : ∀ c d, 0 < M.s c d) :
-    precision M M.U st.n *ᵥ latentX M st y z
+    faPrecision M M.U st.n *ᵥ latentX M st y z
       = projT M M.U (fun c d => st.f c d - st.n c * (M.m c d + M.Dd c d * z c d) - st.n c * apply M.V y c d) := by
-  have hP := precision_posDef M M.U st.n hn hs
-  have hx : latentX M st y z = (precision M M.U st.n)⁻¹ *ᵥ
+  have hP := faPrecision_posDef M M.U st.n hn hs
+  have hx : latentX M st y z = (faPrecision M M.U st.n)⁻¹ *ᵥ
       projT M M.U (fun c d => st.f c d - st.n c * (M.m c d + M.Dd c d * z c d) - st.n c * apply M.V y c d) := by
     funext a
-    simp only [latentX, idPlusInv, LinAlg.inv, BobEM.FA.mulVec, sumFin_eq, Matrix.mulVec, dotProduct, precision]
+    simp only [latentX, idPlusInv, LinAlg.inv, BobEM.FA.mulVec, sumFin_eq, Matrix.mulVec, dotProduct, faPrecision]
   rw [hx]; exact posDef_mul_inv_mulVec hP _
 
 /-- the residual-offset update is the solution of the diagonal system
